@@ -566,7 +566,40 @@ func (g *gen) tables() {
 			sb.WriteString(fmt.Sprintf("(%s, %s)", coqStr(h[0]), coqStr(h[1])))
 		}
 		sb.WriteString("].\n")
-		sb.WriteString(fmt.Sprintf("Definition default_arm_%s : bool := %v.\nDefinition role_ok_%s : bool := %v.\n\n", r.id, rt.hasDefaultNotSupported, r.id, rt.ok))
+		sb.WriteString(fmt.Sprintf("Definition default_arm_%s : bool := %v.\nDefinition role_ok_%s : bool := %v.\n", r.id, rt.hasDefaultNotSupported, r.id, rt.ok))
+		// setter -> handler field it assigns
+		sb.WriteString(fmt.Sprintf("Definition setters_%s : list (string * string) := [", r.id))
+		var sn []string
+		for n := range ix.pkgs[r.rel].funcs {
+			if strings.HasPrefix(n, r.recv+".Set") && strings.HasSuffix(n, "Handler") {
+				sn = append(sn, n)
+			}
+		}
+		sort.Strings(sn)
+		firstS := true
+		for _, n := range sn {
+			fd := ix.pkgs[r.rel].funcs[n]
+			field := ""
+			ast.Inspect(fd.Body, func(m ast.Node) bool {
+				if as, ok := m.(*ast.AssignStmt); ok && len(as.Lhs) == 1 {
+					if sel, ok := as.Lhs[0].(*ast.SelectorExpr); ok && field == "" {
+						if x, ok := sel.X.(*ast.Ident); ok && x.Name == recvVar(fd) {
+							field = sel.Sel.Name
+						}
+					}
+				}
+				return true
+			})
+			if field == "" {
+				continue
+			}
+			if !firstS {
+				sb.WriteString("; ")
+			}
+			firstS = false
+			sb.WriteString(fmt.Sprintf("(%s, %s)", coqStr(strings.TrimPrefix(n, r.recv+".")), coqStr(field)))
+		}
+		sb.WriteString("].\n\n")
 	}
 
 	// ---- validators
